@@ -127,8 +127,11 @@ fn modrm(c: &mut Cur, rex: u8, regs: &dyn Regs) -> Option<ModRm> {
 pub fn decode(bytes: &[u8], regs: &dyn Regs) -> Option<Insn> {
     let mut c = Cur { b: bytes, i: 0 };
     let (mut p66, mut pf3, mut _pf2) = (false, false, false);
+    // address-size override: effective addresses are formed from the low 32 bits
+    let mut p67 = false;
     loop {
         match c.peek()? {
+            0x67 => p67 = true,
             0x66 => p66 = true,
             0xf3 => pf3 = true,
             0xf2 => _pf2 = true,
@@ -148,11 +151,8 @@ pub fn decode(bytes: &[u8], regs: &dyn Regs) -> Option<Insn> {
     let op = c.next()?;
     let fix = |c: &Cur, m: &ModRm, regs: &dyn Regs| -> Option<u64> {
         let ea = m.ea?;
-        if m.rm == 0xff {
-            Some(regs.rip().wrapping_add(c.i as u64).wrapping_add(ea))
-        } else {
-            Some(ea)
-        }
+        let ea = if m.rm == 0xff { regs.rip().wrapping_add(c.i as u64).wrapping_add(ea) } else { ea };
+        Some(if p67 { ea & 0xffff_ffff } else { ea })
     };
     let kind = match op {
         0xfa => Kind::Cli,
